@@ -401,6 +401,7 @@ fn shrink<P: Prop>(
 
 pub fn worker<P: Prop>(args: &WorkerArgs) -> i32 {
     install_panic_hook();
+    crate::alloc_count::track_this_thread();
     let known = load_known(P::ID);
     let mut res = ShardResult::default();
     let mut nontrivial: HashSet<u64> = HashSet::new();
@@ -549,6 +550,7 @@ pub struct ReplayFile {
 /// Returns Ok(None) when the case passes, Ok(Some(failure)) when it fails.
 pub fn replay_case<P: Prop>(case: &Value) -> Result<Option<Failure>, String> {
     install_panic_hook();
+    crate::alloc_count::track_this_thread();
     let case: P::Case =
         serde_json::from_value(case.clone()).map_err(|e| format!("cannot decode case: {e}"))?;
     let mut obs = Obs {
